@@ -274,6 +274,9 @@ func extraSnippets() map[string]string {
 		"import-names": "package p\n\nimport (\n\t\"fmt\"\n\t\"net/url\"\n\t\"os\"\n\t\"strings\"\n)\n\ntype loc struct{ Host string }\n\nfunc host(url *loc) string { return url.Host }\n\nfunc f() {\n\t(fmt).Println(\"b\")\n\tfmt.Println((os).Args, url.PathEscape(\"x\"))\n\tstrings := loc{}\n\t_ = strings.Host\n\t{\n\t\tos := &strings\n\t\t_ = os.Host\n\t}\n}\n",
 		// an import block that gofmt would sort and prune: unsorted, one path twice
 		"unsorted-imports": "package p\n\nimport (\n\t\"os\"\n\t\"fmt\"\n\t\"os\"\n\t\"bytes\"\n)\n\nimport \"strings\"\n\nvar _ = fmt.Sprint(os.Args, bytes.MinRead, strings.ToUpper)\n",
+		// package-level objects with names that are special elsewhere (a variable called init is
+		// declared in the file scope, a function called init is not; main, len and nil as ordinary names)
+		"scope-names": "package p\n\nvar init = 0\n\nconst zero, main = iota, 1\n\ntype len struct{ nil int }\n\nfunc get() int { return init + main }\n\nfunc init() {}\n\nfunc _() {}\n\nvar _ = get\n",
 		"empty-stmt":   "package p\n\nfunc f() {\n\t;\n\tfor {\n\t\t;\n\t}\nL:\n\t;\n\tgoto L\n}\n",
 		"generics":     "package p\n\ntype S[T any, U comparable] struct {\n\ta T\n\tb map[U][]T\n}\n\nfunc F[T ~int | ~string, U any](x T, y ...U) (r T) {\n\tvar s S[T, int]\n\t_ = s\n\treturn G[T, U](x)\n}\n",
 		"literals":     "package p\n\nvar (\n\ta = 1\n\tb = 1.5e3\n\tc = 'x'\n\td = \"s\"\n\te = `raw\nstring`\n\tf = 2i\n\tg = [...]int{1, 2: 3}\n\th = map[string]struct{ X, Y int }{\"k\": {1, 2}}\n\ti = func(x int) (y int) { return x }\n\tj = <-ch\n\tk = (*T)(nil)\n\tl = x.(type1)\n\tm = s[1:2:3]\n\tn = &T{A: 1}\n)\n",
